@@ -12,6 +12,11 @@ CHECKS = {
         technique="runtime reference-model monitor: replies of the real evaluator vs independent exact (Fraction) evaluation of the re-parsed query text",
         text="Every generated pure-number query (bounded-exhaustive small texts over a boundary alphabet plus seeded random trees with operands up to 4096 bits) is evaluated by the real library and judged against an independent exact evaluator; undefined results must be errors. Holds on the executions produced, not beyond.",
         note="Trusts Python int/Fraction, the reference grammar as calibrated in DESIGN.md, and the probe's faithful transcription of raw_value; exponents/shift counts limited to |n|<=64 and results to 2^16 bits."),
+    "C03": dict(
+        category="exploration", design_ref="DESIGN.md §2 C03",
+        technique="runtime reference-model monitor: conversion replies of the real evaluator vs exact values from the dumped unit table; conformance-error suggestions checked by following them with an independent dimension algebra",
+        text="Thorough enumerates every ordered pair of conformable database units (about 5.6e5) plus mismatching and reciprocal pairs, prefixed/plural names and random compound sources/targets with constants and inline definitions; each reply must be the exact ratio (and convert back to 1), or a conformance error whose suggestion makes the sides conformable. Quick covers every class and every unit with sampled partners.",
+        note="Unit values come from the loaded database (C08); float-valued units are judged on refusal only; names that are timezone names or conversion keywords are skipped as targets."),
     "C05": dict(
         category="exploration", design_ref="DESIGN.md §2 C05",
         technique="runtime monitor: independent numeral reader re-reads every printed numeral (Numeric::to_string and query replies) and compares with the exact rational",
